@@ -9,6 +9,7 @@ ops
   render_b   case = {"templates", "main", "ctx"} -> {"ok": text} | {"err": class}  (bundled plain Environment + DictLoader)
   diff       case = {"templates", "main", "ctx"} -> {"b": {...}, "s": {...}}        (both plain Environments)
   ext        case = {"src", "ctx", "queries": {name: bool}} -> {"ok"...}            (nunavut CodeGenEnvironment, target c)
+  ext_seq    case = {"templates", "plain", "scripts": {name: [bool]}, "steps": [template name]} -> {"n": [...], "s": [...]}
   parse_b    case = source string            -> repr of the bundled AST (env.parse) | {"err": class}
 """
 import json
@@ -83,6 +84,49 @@ def main():
                 outs.append({'ok': env.get_template('t').render(**c['ctx'])})
             except Exception as ex:  # noqa
                 outs.append(_err(ex))
+    elif op == 'ext_seq':
+        # one long-lived CodeGenEnvironment per case; use queries (and context callables a<i>()) answer from scripts that advance
+        # with every call, so answers change between AND during renders; on odd steps the query attributes are re-pointed to
+        # fresh callables.  The stock side renders the ordinary {% if q() %} translations over an identical copy of the scripts.
+        from nunavut.jinja import CodeGenEnvironmentBuilder
+        from nunavut.lang import LanguageContextBuilder
+        lctx = LanguageContextBuilder().set_target_language('c').create()
+
+        def make_world(scripts):
+            state = {k: list(v) for k, v in scripts.items()}
+
+            def asker(k):
+                def ask():
+                    lst = state[k]
+                    return lst.pop(0) if len(lst) > 1 else (lst[0] if lst else False)
+                return ask
+            return asker
+        for c in cases:
+            res = {'n': [], 's': []}
+            try:
+                env = CodeGenEnvironmentBuilder(B.DictLoader(c['templates']), lctx).create()
+                senv = S.Environment(loader=S.DictLoader(c['plain']))
+                uq = env.globals['uses_queries']
+                ask_n, ask_s = make_world(c['scripts']), make_world(c['scripts'])
+                fn_n = {k: ask_n(k) for k in c['scripts']}
+                fn_s = {k: ask_s(k) for k in c['scripts']}
+                for k, f in fn_n.items():
+                    setattr(uq, k, f)
+                for i, name in enumerate(c['steps']):
+                    if i % 2 == 1:
+                        for k, f in fn_n.items():
+                            setattr(uq, k, (lambda g: (lambda: g()))(f))
+                    try:
+                        res['n'].append({'ok': env.get_template(name).render(**fn_n)})
+                    except Exception as ex:  # noqa
+                        res['n'].append(_err(ex))
+                    try:
+                        res['s'].append({'ok': senv.get_template(name).render(**fn_s)})
+                    except Exception as ex:  # noqa
+                        res['s'].append(_err(ex))
+            except Exception as ex:  # noqa
+                res['setup_error'] = repr(ex)
+            outs.append(res)
     else:
         raise SystemExit('unknown op ' + op)
     sys.stdout.write('\n@@C19@@' + json.dumps({'out': outs}))
